@@ -754,12 +754,11 @@ func (s *State) applyFunction(name string, fn object.Object, args []object.Objec
 			log.Warnf("output: %v", err)
 		}
 	}
-	if after != before {
+	if after != before || cantCache {
 		log.Debugf("Cache miss for %s %v, %d get misses", function.CacheKey, args, after-before)
-		// Propagate the can't cache
-		if cantCache {
-			s.env.TriggerNoCache()
-		}
+		// Whatever made the callee uncacheable (it read a variable outside of its arguments, or called
+		// something that did, or a non cacheable extension) makes its caller's result depend on it too.
+		s.env.TriggerNoCache()
 		return res
 	}
 	// Don't cache errors, as it could be due to binding for instance.
